@@ -132,7 +132,12 @@ func StreamMutationsForVersion(w io.Writer, versionID, dataID dvid.UUID) error {
 	numMutations := 0
 	for {
 		typeID, jsondata, err := r.Next()
-		if err == io.EOF {
+		if err != nil {
+			// io.EOF is the normal end; anything else is a record that was not completely
+			// written (e.g. process death during the append) and must not be reported.
+			if err != io.EOF {
+				dvid.Errorf("mutation log for data %s, version %s ends in an incomplete record: %v\n", dataID, versionID, err)
+			}
 			break
 		}
 		if numMutations != 0 {
@@ -205,7 +210,10 @@ func sendVersionMutations(ch chan []byte, uuid, dataID dvid.UUID) (numMutations 
 
 	for {
 		typeID, jsondata, err := r.Next()
-		if err == io.EOF {
+		if err != nil {
+			if err != io.EOF {
+				dvid.Errorf("mutation log for data %s, version %s ends in an incomplete record: %v\n", dataID, uuid, err)
+			}
 			break
 		}
 		if typeID != jsonMsgTypeID {
